@@ -62,7 +62,7 @@ func c12BlindKey(r *core.Rand, curve elliptic.Curve, j int) ([]byte, string) {
 var c12DigestLens = []int{0, 1, 20, 28, 32, 48, 64, 66, 128}
 
 func runC12(c *core.Ctx) {
-	n := c.Pick(200, 5000)
+	n := c.Pick(200, 20000)
 	for _, curve := range c12Curves() {
 		name := curve.Params().Name
 		N := curve.Params().N
